@@ -749,6 +749,21 @@ func (x *Exec) applyContract(st *State, in ssa.Instruction, fc *FuncContract, f 
 	// frame
 	if fc.ModDeclared {
 		for _, m := range fc.Modifies {
+			// a closure's captured variable, by name: the captured cell itself is written
+			if id, ok := m.(*EIdent); ok && fv != nil && f != nil {
+				done := false
+				for i, b := range fv.Bind {
+					if i < len(f.FreeVars) && f.FreeVars[i].Name() == id.Name {
+						if p, ok := b.(*Ptr); ok {
+							x.havocPointee(st, p)
+							done = true
+						}
+					}
+				}
+				if done {
+					continue
+				}
+			}
 			x.havocModifies(st, mk(pre), m)
 		}
 	} else if f != nil && len(f.Blocks) > 0 {
